@@ -4,7 +4,7 @@ import inspect
 from abc import ABC, abstractmethod
 from dataclasses import dataclass
 from functools import wraps
-from typing import List
+from typing import Iterable, List
 
 from typing_extensions import Callable, Optional, Any, dataclass_transform, Type, Tuple
 
@@ -140,6 +140,20 @@ def update_domain_and_kwargs_from_args(symbolic_cls: Type, *args, **kwargs):
 
 
 
+class _InstancesIn:
+    """
+    The members of a given domain that are instances of a class. Every walk starts a new filter over the given domain, so a
+    collection whose walk was ended by an exception can be walked again (a one-shot iterator goes on where it stopped).
+    """
+
+    def __init__(self, cls: Type, source: Iterable):
+        self.cls = cls
+        self.source = source
+
+    def __iter__(self):
+        return filter(lambda v: isinstance(v, self.cls), self.source)
+
+
 def extract_selected_variable_and_expression(symbolic_cls: Type, domain: Optional[From] = None,
                                              predicate_type: Optional[PredicateType] = None, **kwargs):
     """
@@ -155,7 +169,7 @@ def extract_selected_variable_and_expression(symbolic_cls: Type, domain: Optiona
                                                                    cache_keys=cache_keys)))
     elif domain and is_iterable(domain.domain):
         # A new source: the given one belongs to the caller and may be used for other variables (of other types) as well.
-        domain = From(filter(lambda v: isinstance(v, symbolic_cls), domain.domain))
+        domain = From(_InstancesIn(symbolic_cls, domain.domain))
 
     var = Variable(symbolic_cls.__name__, symbolic_cls, _domain_source_=domain, _predicate_type_=predicate_type,
                    _is_indexed_=index_class_cache(symbolic_cls))
